@@ -75,6 +75,13 @@ def grid_batch(thetas, bins, rng, centres, chunk, extra_first, names=None, tdtyp
         res = res.transpose(nm("col"), *newdim)
         return np.asarray(res.values), newdim
 
+    if ncol % 2 == 0:
+        # an earlier transform on the same Grid by another method
+        try:
+            grid.transform(xr.DataArray(np.ones((ncol, n)), dims=(nm("col"), nm("zc"))), nm("Z"), b,
+                           target_data=xr.DataArray(np.tile(np.arange(n) * 1.0, (ncol, 1)), dims=(nm("col"), nm("zc"))), method="linear")
+        except Exception:
+            pass
     W = [[None] * n for _ in range(ncol)]
     newdim = None
     for i in range(n):
